@@ -113,7 +113,15 @@ async def execute(net, hyg, plan):
             marks = [c for c in codes if c.startswith("1")]
             finals = [c for c in codes if not c.startswith("1")]
             where = f"step {st} failing {fired['op']} (call #{fired['n']}, {plan.get('exc', 'eio')})"
-            if "EOF" in outcome or "TIMEOUT" in outcome:
+            if st[0] == "xfer_abort":
+                # the step holds two commands: the transfer (451, or 426 if the fault came after the abort took
+                # effect) and ABOR, which must be answered 226 in any case
+                if "EOF" in outcome or "TIMEOUT" in outcome:
+                    viol.append({"key": f"abor-unanswered-after-backend-failure:{fired['op']}",
+                                 "msg": f"{where}: outcome {outcome} - the ABOR sent during the failing transfer got no reply"})
+                elif not ((not marks and finals == ["451"]) or (len(marks) == 1 and finals in (["451", "226"], ["426", "226"]))):
+                    viol.append({"key": f"wrong-reply:{site}", "msg": f"{where}: replied {codes} (expected 1xx, 451|426, 226)"})
+            elif "EOF" in outcome or "TIMEOUT" in outcome:
                 viol.append({"key": f"session-lost:{site}", "msg": f"{where}: outcome {outcome}"})
             elif finals != ["451"] or len(marks) > 1:
                 kind = "success-reply" if any(c.startswith("2") for c in finals) else "wrong-reply"
@@ -147,6 +155,9 @@ async def execute(net, hyg, plan):
         if by is not None:
             await asyncio.wait([by_task], timeout=200)
             mon["bystander"] = 1
+        s.peer.cut("fin")
+        if by is not None:
+            by.peer.cut("fin")
         await net.quiesce(2.0)
         leaks = w.leaks()
         for leak in leaks:
